@@ -26,3 +26,29 @@ PROPS = {
         ],
     },
 }
+
+_VM_TB = COMMON_TB + [
+    "/verif/harness/src/vm.rs: reference Script machine (abstract elements; signatures are tokens; hashes an injective map)",
+    "/verif/harness/src/gen/mod.rs: native generator (enumeration of shapes, script decoding with rust-bitcoin's instruction iterator, placeholder->element mapping)",
+]
+_W_ASSUME = [
+    "library code (encode, type_check, ExtData, lift, build_template(_mall), sat_dissat via hook H2, Descriptor::into_plan(_mall)) ran NATIVELY from the current tree; the solver decided the statement about its output (translation validation)",
+    "signatures are abstract tokens (no sighash / secp verification); hash functions are an injective map preimage->digest",
+    "an absolute lock is met by nLockTime of the same unit >= t AND a non-final nSequence; a relative lock by nSequence with disable bit clear, same unit, masked value >=; tx version >= 2",
+    "standardness flags on: NULLFAIL, NULLDUMMY, CLEANSTACK, STRICTENC, MINIMALIF in Segwitv0/Tap",
+]
+_W_BOUNDS = {
+    "quick": "all type/kind classes of well-typed fragments up to 4 nodes (Segwitv0, Tap), 3 (Legacy), 2 (Bare); <=4 keys, <=2 hashes, <=2 lock atoms per kind in 3 value palettes (distinct / equal / mixed units); all 2^(keys+hashes) x consistent lock vectors natively; nLockTime/nSequence full 32 bit; candidate witnesses <= max_args+1 <= 10 elements over a 9-tag alphabet",
+    "thorough": "as quick plus seed-selected classes up to 6 nodes (Segwitv0/Tap), 5 (Legacy), 4 (Bare)",
+}
+_W_OUT = ["shapes above the node bound", "real signature verification / sighash", "raw pkh fragments", "PSBT route", "key types other than single compressed keys (x-only derived in Tap)"]
+for _p, _lvl, _fn in [
+    ("C01", "translation_validation", ["Miniscript::build_template", "build_template_mall", "Satisfaction::sat_dissat (H2)", "Terminal::encode", "Descriptor::into_plan(_mall)"]),
+    ("C02", "translation_validation", ["Miniscript::build_template(_mall)", "Terminal::encode", "Miniscript::validate(SANE)"]),
+    ("C03", "translation_validation", ["Miniscript::build_template", "Terminal::encode", "Miniscript::validate(SANE)"]),
+    ("C06", "translation_validation", ["Type::type_check (via from_ast)", "Terminal::encode", "Satisfaction::sat_dissat (H2, for the d clause)"]),
+    ("C07", "translation_validation", ["Liftable::lift for Miniscript", "Semantic::normalized", "Terminal::encode", "Miniscript::build_template_mall"]),
+    ("C09", "translation_validation", ["ExtData::type_check", "Miniscript::script_size", "max_satisfaction_size", "max_satisfaction_witness_elements", "within_resource_limits", "Miniscript::build_template(_mall)"]),
+    ("C17", "translation_validation", ["Descriptor::into_plan", "into_plan_mall", "Assets as AssetProvider", "Miniscript::build_template(_mall)"]),
+]:
+    PROPS[_p] = {"level": _lvl, "trusted_base": _VM_TB, "functions": _fn, "bounds": _W_BOUNDS, "outside": _W_OUT, "assumptions": _W_ASSUME}
